@@ -884,13 +884,17 @@ func (ex *Exec) wg(v Value) *wgState {
 // all behaviours of the unstable real sort.Slice.
 func (ex *Exec) sortSlice(g *G, sl SliceV, less Value, stable bool) {
 	n := sl.Len
-	if n > 8 {
-		ex.unsupported("sort.Slice of more than 8 elements")
-	}
+	symbolicCmp := false
 	// insertion sort working on the real backing array so that less(i,j) sees current contents
 	for i := 1; i < n; i++ {
 		for j := i; j > 0; j-- {
 			lt := termOf(ex.callSync(g, less, []Value{ex.intC(j), ex.intC(j - 1)}))
+			if !lt.IsConst() {
+				symbolicCmp = true
+			}
+			if symbolicCmp && n > 8 {
+				ex.unsupported("sort.Slice of more than 8 elements with symbolic comparisons")
+			}
 			swap := false
 			if ex.branch(lt) {
 				swap = true
